@@ -7,8 +7,16 @@ import (
 	"errors"
 
 	"github.com/attestantio/vouch/internal/vnd"
+	"github.com/rs/zerolog"
 	"github.com/wealdtech/go-majordomo"
 )
+
+// c16New builds the service through its constructor.
+func c16New(m majordomo.Service, location string, fallbackLocation string) *Service {
+	s, err := New(context.Background(), WithLogLevel(zerolog.Disabled), WithMajordomo(m), WithLocation(location), WithFallbackLocation(fallbackLocation))
+	vnd.Assert(err == nil && s != nil, "C16.new.accepted")
+	return s
+}
 
 type c16Majordomo struct {
 	primary  int // 0 content, 1 not found, 2 other error
@@ -41,11 +49,12 @@ func (m *c16Majordomo) Fetch(_ context.Context, url string) ([]byte, error) {
 func VerifC16_DynamicGraffiti() {
 	contents := []string{"", "\n", "\r\n\r\n", "only line", "first\nsecond\n", "first\r\nsecond\r\n\r\n", "slot {{SLOT}} by {{VALIDATORINDEX}}", "a line that is far longer than the thirty-two bytes of a graffiti field"}
 	m := &c16Majordomo{primary: vnd.Choose("primary", 3), fallback: vnd.Choose("fallback", 3), content: contents[vnd.Choose("content", len(contents))]}
-	s := &Service{majordomo: m, location: "file:///graffiti/{{SLOT}}/{{VALIDATORINDEX}}.txt"}
 	hasFallback := vnd.Bool("fallback-configured")
+	fallbackLocation := ""
 	if hasFallback {
-		s.fallbackLocation = "file:///graffiti/default.txt"
+		fallbackLocation = "file:///graffiti/default.txt"
 	}
+	s := c16New(m, "file:///graffiti/{{SLOT}}/{{VALIDATORINDEX}}.txt", fallbackLocation)
 	got, err := s.Graffiti(context.Background(), 12345, 678)
 	vnd.Assert(len(m.asked) >= 1 && m.asked[0] == "file:///graffiti/12345/678.txt", "C16.graffiti.location-carries-slot-and-validator")
 	final := m.primary
